@@ -376,7 +376,12 @@ def layout(df, lay):
                     df[col] = df[col].astype(int)
             else:
                 df[col] = df[col].astype(dt)
-    if lay.get('extra'):
+    if lay.get('extra') == 'mixed':
+        # column labels need not be strings (pd.concat([frame, series], axis=1) gives an integer label)
+        df[0] = range(len(df))
+        df['station'] = 'LSGG'
+        df[2.5] = 0.0
+    elif lay.get('extra'):
         df['extra_col'] = range(len(df))
         df['comment'] = 'x'
     if lay.get('colperm'):
